@@ -501,6 +501,154 @@ theorem dirChain_length {es : List Edge} (hes : EdgesOK es) {a b : Name} {k : Na
     · rw [h1, List.length_cons, hp, ih]; omega
     · exact absurd ht h1
 
+/-! ### Every walker: an edge leads one component deeper or to a hardlink source -/
+
+/-- Invariant of the second loop of `initFields`. -/
+def EdgeOK2 (srcs : List Name) (e : Edge) : Prop := e.target = e.base :: e.parent ∨ e.target ∈ srcs
+
+def EdgesOK2 (srcs : List Name) (es : List Edge) : Prop := ∀ e ∈ es, EdgeOK2 srcs e
+
+theorem edgesOK2_addEdge {srcs : List Name} {es : List Edge} {e : Edge} (hes : EdgesOK2 srcs es)
+    (he : EdgeOK2 srcs e) : EdgesOK2 srcs (addEdge es e) := by
+  intro x hx
+  unfold addEdge at hx
+  rcases List.mem_cons.mp hx with hx | hx
+  · rw [hx]; exact he
+  · exact hes x (List.mem_filter.mp hx).1
+
+theorem edgesOK2_mono {srcs : List Name} {s : Name} {es : List Edge} (hes : EdgesOK2 srcs es) :
+    EdgesOK2 (s :: srcs) es := by
+  intro x hx
+  rcases hes x hx with h | h
+  · exact Or.inl h
+  · exact Or.inr (List.mem_cons_of_mem _ h)
+
+theorem getOrCreateDir_sources (t : Tree) (n : Name) : (getOrCreateDir t n).sources = t.sources := by
+  induction n generalizing t with
+  | nil => unfold getOrCreateDir; split <;> rfl
+  | cons b p ih =>
+    unfold getOrCreateDir
+    split
+    · rfl
+    · simp only []
+      rw [ih]
+
+theorem getOrCreateDir_edgesOK2 (t : Tree) (n : Name) (srcs : List Name) (h : EdgesOK2 srcs t.edges) :
+    EdgesOK2 srcs (getOrCreateDir t n).edges := by
+  induction n generalizing t with
+  | nil =>
+    unfold getOrCreateDir
+    split
+    · exact h
+    · exact h
+  | cons b p ih =>
+    unfold getOrCreateDir
+    split
+    · exact h
+    · apply edgesOK2_addEdge
+      · exact ih _ h
+      · exact Or.inl rfl
+
+theorem treeStep_edgesOK2 (t t' : Tree) (e : Ent) (h : EdgesOK2 t.sources t.edges)
+    (hs : treeStep t e = Outcome.ok t') : EdgesOK2 t'.sources t'.edges := by
+  unfold treeStep at hs
+  split at hs
+  · cases hs; exact h
+  · split at hs
+    · cases hs; exact h
+    · rename_i base pdir hname
+      simp only [] at hs
+      have hg : EdgesOK2 t.sources (getOrCreateDir t pdir).edges := getOrCreateDir_edgesOK2 t pdir _ h
+      have hsrc := getOrCreateDir_sources t pdir
+      split at hs
+      · split at hs
+        · rename_i org hgs
+          split at hs
+          · simp at hs
+          · cases hs
+            simp only []
+            rw [hsrc]
+            exact edgesOK2_addEdge (edgesOK2_mono hg) (Or.inr (List.mem_cons_self ..))
+        · simp at hs
+        · simp at hs
+      · cases hs
+        simp only []
+        rw [hsrc]
+        exact edgesOK2_addEdge hg (Or.inl hname)
+
+theorem treeLoop_edgesOK2 (ents : List Ent) (t t' : Tree) (h : EdgesOK2 t.sources t.edges)
+    (hs : treeLoop ents t = Outcome.ok t') : EdgesOK2 t'.sources t'.edges := by
+  induction ents generalizing t with
+  | nil => unfold treeLoop at hs; cases hs; exact h
+  | cons e es ih =>
+    unfold treeLoop at hs
+    split at hs
+    · rename_i t1 h1
+      exact ih t1 (treeStep_edgesOK2 t t1 e h h1) hs
+    · simp at hs
+    · simp at hs
+
+/-- What `initTree` accepts: the tree the loop built, with every hardlink source childless. -/
+theorem initTree_ok (ents : List Ent) (t : Tree) (h : initTree ents = Outcome.ok t) :
+    treeLoop ents ⟨(ents.filter (fun e => e.type ≠ EType.chunk)).reverse, [], []⟩ = Outcome.ok t ∧
+      ∀ s ∈ t.sources, hasChild t.edges s = false := by
+  unfold initTree at h
+  split at h
+  · rename_i t0 h0
+    split at h
+    · simp at h
+    · rename_i hany
+      cases h
+      refine ⟨h0, ?_⟩
+      intro s hs
+      have := hany
+      simp only [List.any_eq_true, not_exists, not_and, Bool.not_eq_true] at this
+      exact this s hs
+  · simp at h
+  · simp at h
+
+/-- `k` consecutive child edges of any kind from `a` down to `b`. -/
+inductive Chain (es : List Edge) : Name → Name → Nat → Prop where
+  | nil (n : Name) : Chain es n n 0
+  | step {a b : Name} {k : Nat} (e : Edge) : Chain es a b k → e ∈ es → e.parent = b →
+      Chain es a e.target (k + 1)
+
+/-- Final form of the invariant: an edge leads one component deeper or to a childless entry. -/
+def EdgesLeafOrDeeper (es : List Edge) : Prop :=
+  ∀ e ∈ es, e.target = e.base :: e.parent ∨ hasChild es e.target = false
+
+theorem hasChild_of_mem {es : List Edge} {e : Edge} (h : e ∈ es) : hasChild es e.parent = true := by
+  unfold hasChild
+  simp only [List.any_eq_true, decide_eq_true_eq]
+  exact ⟨e, h, rfl⟩
+
+/-- A node with children that is reached after `k` steps lies exactly `k` components deeper. -/
+theorem chain_length {es : List Edge} (hes : EdgesLeafOrDeeper es) {a b : Name} {k : Nat}
+    (h : Chain es a b k) (hb : hasChild es b = true) : b.length = a.length + k := by
+  induction h with
+  | nil => simp
+  | step e _ hm hp ih =>
+    rcases hes e hm with h1 | h1
+    · have hpar : hasChild es e.parent = true := hasChild_of_mem hm
+      rw [hp] at hpar
+      rw [h1, List.length_cons, hp, ih hpar]; omega
+    · rw [h1] at hb; exact absurd hb (by simp)
+
+theorem chain_zero {es : List Edge} {a b : Name} (h : Chain es a b 0) : a = b := by
+  cases h; rfl
+
+theorem chain_start_hasChild {es : List Edge} {a b : Name} {k : Nat} (h : Chain es a b k) (hk : 0 < k) :
+    hasChild es a = true := by
+  induction h with
+  | nil => omega
+  | step e hc hm hp ih =>
+    rename_i b' k'
+    by_cases h0 : k' = 0
+    · subst h0
+      have := chain_zero hc
+      rw [this, ← hp]; exact hasChild_of_mem hm
+    · exact ih (by omega)
+
 /-- hardlink edges never end in a hardlink entry. -/
 theorem treeStep_no_panic (t : Tree) (e : Ent) : treeStep t e ≠ Outcome.panic := by
   unfold treeStep
